@@ -18,5 +18,13 @@ fixed("C12","R13:D3:onnx.ReadUint64ArrayFromBytes","e4012e9","raw UINT64 initial
 fixed("C12,C18","R13:D6","fa38173","dims [3] with 1 element, dims [-1], dims [0] panicked at load; 6-byte float32 payload with dims [2] loaded as [0 0]; 3 elements without dims loaded as a scalar")
 fixed("C12","R13:D5:fallback:any","b960d7f","FLOAT16 tensor with int32_data loaded as an int32 tensor of bit patterns")
 known("C12","R13:D5:fallback:UNDEFINED","a tensor with data_type UNDEFINED (0) is loaded through whichever typed field is populated (TensorProto{Dims:[2],Int32Data:[7,9]} -> int32 tensor) instead of being refused; TestConstantOfShape builds its value tensor this way, so removing the fallback breaks the unedited suite (demo: findings/c12_test.go)")
+fixed("C07","R9a:Flatten.axis:slice-bound@(*opset13.Flatten).Apply","dfa64ca","Flatten axis=5 on a rank-2 tensor panicked 'slice bounds out of range'")
+fixed("C07","R9a:Squeeze.inputs[1]:selection@opset13.keepDim","15c266f","Squeeze of a (1,3) tensor with axes=[5] returned the input unchanged, no error")
+fixed("C07","R9c:Squeeze.inputs[1]:duplicates","15c266f","Squeeze with axes=[0,0] was accepted")
+fixed("C08","R9a:Slice.inputs[3]:index@(*opset13.Slice).constructSlices","99a2101","Slice with axes=[5] on a rank-2 tensor (or axes longer than starts) panicked 'index out of range'")
+fixed("C08","R10:repeat:(*opset13.Expand).Apply#1","dd7c884","Expand([2] -> shape [3]) returned 6 elements; (2,3) -> shape [3] returned shape (6,3)")
+fixed("C07","R20:scalarwrap:(*opset13.Reshape).Apply#1","0675bcf","Reshape with a rank-0 int64 shape tensor panicked 'interface {} is int64, not []int64'")
+fixed("C09","R20:scalarwrap:(*opset13.ArgMax).Apply#1","8a11d88","ArgMax of [0 1 2] with axis 0, keepdims 0 returned 'type assert error' instead of the scalar 2")
+known("C08","R19:Slice:rank-restored","Slice [1:2,0:4] of a 3x4 tensor returns shape (4) instead of (1,4): gorgonia's Tensor.Slice drops every sliced axis whose extent becomes 1 and Slice.Apply returns the view as is; a repair needs the ONNX output-shape computation (clamping, negative steps), not a minimal patch (demo: findings/c08_test.go)")
 json.dump(F,open('/verif/known_findings.json','w'),indent=1)
 print(len(F),"entries")
